@@ -510,6 +510,14 @@ fn run_op(db: &mut FixtureDatabase, op: &Value) -> Value {
                    "skip_plugins": c.skip_plugins})
         }
         "scope_parse" => json!(FixtureScope::parse(s(op, "text")).map(scope_str)),
+        "glob_valid" => json!(op
+            .get("patterns")
+            .and_then(|v| v.as_array())
+            .map(|a| a
+                .iter()
+                .map(|x| x.as_str().is_some_and(|x| glob::Pattern::new(x).is_ok()))
+                .collect::<Vec<bool>>())
+            .unwrap_or_default()),
         // the real glob crate as an oracle: which of the paths does some pattern match
         "glob_matches" => {
             let pats: Vec<glob::Pattern> = op
